@@ -4,7 +4,7 @@ from fractions import Fraction
 from vlib import *
 
 HEADER = """From Coq Require Import ZArith NArith List Floats.
-From V Require Import F64 Gradual SvCases GenState GsCases.
+From V Require Import F64 Gradual SvCases GenState GenStateMania GsCases GsAccept.
 Import ListNotations.
 Open Scope Z_scope.
 """
@@ -42,14 +42,15 @@ def case_coq(r):
         g = (f"GCatch (mk_catch_in {a[0]} {a[1]} {a[2]} {oz(o[0])} {oz(o[1])} {oz(o[2])} {oz(o[3])} {oz(o[4])} {oz(o[5])} "
              f"{of(r['acc01'])})")
     else:
-        return None
+        g = (f"GMania (mk_mania_in {a[0]} {a[1]} {passed} {oz(o[0])} {oz(o[1])} {oz(o[2])} {oz(o[3])} {oz(o[4])} {oz(o[5])} "
+             f"{of(r['acc01'])} {best} {cbool(classic)})")
     return f"({r['id']}%N, {g}, {zlist(r['out'])}, {zlist(r['out2'])})"
 
 
 def shard_body(rows):
     cs = [c for c in (case_coq(r) for r in rows) if c]
     return ("Definition cases : list (N * gs_case * list Z * list Z) := [\n  " + ";\n  ".join(cs) + "].\n"
-            "Eval vm_compute in gs_bad cases.")
+            "Eval vm_compute in (gs_bad cases ++ accept_bad cases).")
 
 
 # --------------------------------------------------------------------------- oracles
@@ -283,7 +284,7 @@ def run(chk, binary, jobs, oracles, model=True, sample_limit=3):
     for r in allrows[:sample_limit]:
         chk.sample({k: r[k] for k in ("mode", "attrs", "opts", "acc", "prio", "lazer", "cl", "passed", "out")})
     if model and allrows:
-        mrows = [r for r in allrows if r["mode"] != 3]
+        mrows = list(allrows)
         for k, r in enumerate(mrows):
             r["id"] = k
         per = max(1, (len(mrows) + NCPU - 1) // NCPU)
@@ -300,10 +301,20 @@ def run(chk, binary, jobs, oracles, model=True, sample_limit=3):
                 continue
             byid = {r["id"]: r for r in srows}
             for cid, which in bad:
+                r = byid[cid]
+                if which == 9:
+                    # a hypothesis of the C12 theorems (the accuracy search accepted a candidate) is false here
+                    if r["acc01"] is not None and fbits(r["acc01"]) != fbits(r["acc01"]):
+                        chk.dist("gs.nan_accuracy_outside_theorem")
+                        continue
+                    chk.broken_obligation("hypothesis",
+                                          f"the acceptance hypothesis of the {MODES[r['mode']]} generate_state theorem "
+                                          f"is false on a reachable input", {"case": r})
+                    continue
                 chk.cov["correspondence_mismatches"] += 1
                 chk.broken_obligation("correspondence",
-                                      f"GenState model ({MODES[byid[cid]['mode']]}) and implementation differ on "
-                                      f"{'first' if which == 1 else 'second'} generation", {"case": byid[cid]})
+                                      f"GenState model ({MODES[r['mode']]}) and implementation differ on "
+                                      f"{'first' if which == 1 else 'second'} generation", {"case": r})
         chk.cov.setdefault("traces_validated_against_model", 0)
         chk.cov["traces_validated_against_model"] += len(mrows)
     return allrows
